@@ -677,6 +677,7 @@ class FnLower:
                 if not args and bcls not in self.cfg.rename.get('__base_ctor__', ()):  # default ctor of a base
                     key = ('ctor', bcls, 0)
                     if key in self.cfg.rename:
+                        self.callees.add(self.cfg.rename[key])
                         return ['%s((%s*)self);' % (self.cfg.rename[key], self.T.base(bcls))]
                     return []
                 st = self.construct_into('(*(%s*)self)' % self.T.base(bcls), u)
